@@ -2890,7 +2890,12 @@ def is_none(array, axis=0, highlevel=True, behavior=None):
     layout = ak.operations.convert.to_layout(array)
 
     out = ak._util.recursively_apply(
-        layout, getfunction, pass_depth=True, pass_user=True, user=axis
+        layout,
+        getfunction,
+        pass_depth=True,
+        pass_user=True,
+        user=axis,
+        numpy_to_regular=True,
     )
 
     return ak._util.maybe_wrap_like(out, array, behavior, highlevel)
